@@ -210,7 +210,7 @@ def run(out: Outcome) -> None:
         stream = [sample(rng, 1, dim, off)[0] for _ in range(w + rng.randint(0, 8))]
         lines.append(f"x sf {dim} " + " ".join(f2h(v) for v in ref.reshape(-1)))
         expect.append(None)
-        refit_at = rng.choice([None, None, rng.randint(1, len(stream) - 1)])      # a second fit() on the running detector (no reset): the reference changes, the window keeps sliding
+        refit_at = rng.randint(1, len(stream) - 1) if case_i % 3 == 1 else rng.choice([None, None, rng.randint(1, len(stream) - 1)])      # (every third case for certain)      # a second fit() on the running detector (no reset): the reference changes, the window keeps sliding
         for t, v in enumerate(stream, 1):
             if refit_at == t:
                 ref = sample(rng, rng.randint(2, 9), dim, off)
